@@ -18,6 +18,8 @@ func main() {
 	switch os.Args[1] {
 	case "func":
 		cmdFunc(os.Args[2:])
+	case "lemma":
+		cmdLemma(os.Args[2:])
 	case "check":
 		os.Exit(kv.CmdCheck(os.Args[2:]))
 	case "list":
@@ -142,5 +144,43 @@ func cmdFunc(args []string) {
 	}
 	if bad > 0 {
 		os.Exit(1)
+	}
+}
+
+// kv lemma [-dump dir] name...: prove lemmas / commutation lemmas from the contract files.
+func cmdLemma(args []string) {
+	fs := flag.NewFlagSet("lemma", flag.ExitOnError)
+	repo := fs.String("repo", "/repo", "repository")
+	dump := fs.String("dump", "", "dump queries of failed obligations to this directory")
+	timeout := fs.Int("timeout", 10, "solver timeout (s)")
+	fs.Parse(args)
+	e, err := kv.Load(*repo)
+	if err != nil {
+		fmt.Fprintln(os.Stderr, err)
+		os.Exit(2)
+	}
+	e.BindContracts()
+	for _, name := range fs.Args() {
+		u, err := e.VerifyLemma(name)
+		if err != nil {
+			fmt.Println("ERROR", err)
+			continue
+		}
+		u.FinishAxioms()
+		kv.Solve(u.Obls, *timeout, false, runtime.NumCPU())
+		for _, er := range u.Errors {
+			fmt.Println("  ERROR", er)
+		}
+		for _, o := range u.Obls {
+			mark := "ok  "
+			if o.Status != "unsat" {
+				mark = "FAIL"
+				if *dump != "" {
+					os.MkdirAll(*dump, 0o755)
+					os.WriteFile(*dump+"/"+strings.NewReplacer("/", "_", "#", "_", ":", "_", "$", "_").Replace(o.Name)+".smt2", []byte(u.Query(o)), 0o644)
+				}
+			}
+			fmt.Printf("  %s %-8s %-60s %6.2fs %-7s | %s\n", mark, o.Status, o.Name, o.Secs, o.Solver, o.Desc)
+		}
 	}
 }
